@@ -11,7 +11,7 @@ with lib.Lock():
     for g in graphs.ALL:
         g()
     lib.coq_makefile()
-p = subprocess.run(['timeout', '3000', 'make', '-C', lib.COQ, '-j16'], capture_output=True, text=True)
+p = subprocess.run(['timeout', '5400', 'make', '-C', lib.COQ, '-j16'], capture_output=True, text=True)
 print(p.stdout[-3000:])
 if p.returncode != 0:
     print(p.stderr[-6000:], file=sys.stderr)
